@@ -82,6 +82,17 @@ class ConcreteCtx:
             raise AssumptionNotMet("string length")
         return s
 
+    def chars(self, name, alphabets):
+        """string with one character per entry of `alphabets` (each a string of allowed characters, or None = any)"""
+        s = self.string(name, len(alphabets))
+        for c, a in zip(s, alphabets):
+            if a is not None and c not in a:
+                raise AssumptionNotMet("character outside its class")
+        return s
+
+    def ordinals(self, s):
+        return [ord(c) for c in s]
+
     def fresh(self, name):
         """auxiliary existential (model-chosen) value"""
         return self.real(name)
